@@ -20,7 +20,7 @@ import numpy as np
 from . import core
 
 KIND = {"ninf": -np.inf, "zero": 0.0, "m1": -1.0, "inf": np.inf, "one": 1.0}
-IMAGES = ["clean", "noisy", "fixedpoint", "neighbour"]
+IMAGES = ["clean", "noisy", "fixedpoint", "neighbour", "tiny"]
 
 
 def make_grid(fam, variant):
@@ -100,6 +100,12 @@ def scenario(rec, variant, image):
     else:
         cand = mk(cls, cpos, R * (1 + rng.uniform(-0.1, 0.1)), cw, np.zeros(modes))
         src = truth
+    if image == "tiny":
+        # a candidate so small that it covers no cell centre (between support points), outside the box on periodic axes
+        tp = cpos.copy()
+        for a in free_axes:
+            tp[a] = np.floor((tp[a] - lo[min(a, len(lo) - 1)]) / h) * h + lo[min(a, len(lo) - 1)] if n.startswith("cart") else tp[a]
+        cand = mk(cls, tp, 0.05 * h, cw, np.zeros(modes))
     levels = (0.0, 1.0) if req["levels"] in ("fixed", "adjust") else (2.0, 5.0)
     with warnings.catch_warnings():
         warnings.simplefilter("ignore")
@@ -172,7 +178,9 @@ def run_case(rec, variant, image):
     finally:
         image_analysis.optimize = proxy.real
     # ---- what the solver was given
-    if len(proxy.calls) != 1:
+    if image == "tiny" and len(proxy.calls) == 0:
+        pass  # nothing to fit: the candidate covers no support point
+    elif len(proxy.calls) != 1:
         fails.append(f"{len(proxy.calls)} solver calls")
     else:
         c = proxy.calls[0]
